@@ -224,6 +224,21 @@ impl Channel {
     }
 }
 
+#[cfg(feature = "verif-hooks")]
+impl Channel {
+    /// Owners of the sending and of the receiving end, if claimed.
+    pub(crate) fn verif_owners(&self) -> (Option<&ConnectionId>, Option<&ConnectionId>) {
+        fn owner(state: &ChannelEndState) -> Option<&ConnectionId> {
+            match state {
+                ChannelEndState::Claimed { owner, .. } => Some(owner),
+                ChannelEndState::Unclaimed | ChannelEndState::Closed => None,
+            }
+        }
+
+        (owner(&self.sender), owner(&self.receiver))
+    }
+}
+
 #[derive(Debug, PartialEq, Eq)]
 pub(crate) enum SendItemError {
     InvalidSender,
